@@ -71,7 +71,8 @@ THEOREMS = {
     "C17": ["rejected_noop", "train_rejected_noop", "query_rejected_noop", "rejected_then_continue",
             "runHist_erase_rejected", "runOuts_erase_rejected", "accepted_all_ok", "rejected_tape_untouched"],
     "C18": ["series_disambiguation_fit", "series_disambiguation_predict", "column_roundtrip", "caller_cells_untouched", "arms_by_value"],
-    "C19": ["copy_bisimilar", "copy_independent", "copy_equal", "shared_copy_counterexample", "noninterference_private"],
+    "C19": ["copy_bisimilar", "copy_independent", "copy_equal", "shared_copy_counterexample", "noninterference_private",
+            "runHist_append", "runOuts_append", "copy_any_time"],
     "C20": ["fit_perm", "partialFit_perm", "fitRec_perm", "rowsOf_perm", "shift_greedy", "shift_ucb", "shift_softmax_invariant",
             "addXty_scale", "gram_ignores_rewards", "listMax_shift",
             "rowsOf_relabel", "fitRec_relabel", "fit_relabel", "partialFit_relabel", "addArm_relabel", "removeArm_relabel",
@@ -111,7 +112,7 @@ IMPORTS = {
     "C16": ["MabModel.Props.C16", "MabModel.Props.C16b"],
     "C17": ["MabModel.Props.C17", "MabModel.Props.C17b"],
     "C18": ["MabModel.Props.C18"],
-    "C19": ["MabModel.Props.C19"],
+    "C19": ["MabModel.Props.C19", "MabModel.Props.C19b"],
     "C20": ["MabModel.Props.C20", "MabModel.Props.C20b", "MabModel.Props.C20c", "MabModel.Props.C20d",
             "MabModel.Props.C20e", "MabModel.Props.C20f", "MabModel.Props.C20g",
             "MabModel.Props.C20h", "MabModel.Props.C20i", "MabModel.Props.C20j"],
